@@ -28,8 +28,15 @@ class T:
 
 
 def mk(op, *args):
-    if op == "array" and args and _is_le_limbs(args):
-        return mk("le_u64_limbs", args[0].args[0].args[0])
+    if op == "array" and args:
+        if _is_le_limbs(args):
+            return mk("le_u64_limbs", args[0].args[0].args[0])
+        c = _as_chunk(args)
+        if c is not None:
+            return c
+        b = _as_limb_bytes(args)
+        if b is not None:
+            return b
     key = (op, args)
     t = _TABLE.get(key)
     if t is None:
@@ -51,6 +58,67 @@ def _is_le_limbs(args):
         elif ch.args[0] is not b:
             return False
     return True
+
+
+def _as_chunk(args):
+    """[b[k], b[k+1], .., b[k+n-1]] with k a multiple of n (n >= 2)  ==  the k/n-th n-byte chunk of b"""
+    n = len(args)
+    if n < 2:
+        return None
+    first = args[0]
+    if not (isinstance(first, T) and first.op == "index" and first.args[1].op == "lit" and isinstance(first.args[1].args[0], int)):
+        return None
+    base, k = first.args[0], first.args[1].args[0]
+    if k % n != 0:
+        return None
+    for j, a in enumerate(args):
+        if not (isinstance(a, T) and a.op == "index" and a.args[0] is base and a.args[1].op == "lit" and a.args[1].args[0] == k + j):
+            return None
+    return mk("chunk", base, n, k // n)
+
+
+def _as_limb_bytes(args):
+    """[le(L[0])[0..8], le(L[1])[0..8], ...]  ==  little-endian bytes of the u64 limb array L"""
+    n = len(args)
+    if n < 16 or n % 8 != 0:
+        return None
+    L = None
+    for pos, a in enumerate(args):
+        i, j = divmod(pos, 8)
+        if not (isinstance(a, T) and a.op == "index" and a.args[1].op == "lit" and a.args[1].args[0] == j and a.args[0].op == "le_bytes_of_u64"):
+            return None
+        li = a.args[0].args[0]
+        if not (li.op == "index" and li.args[1].op == "lit" and li.args[1].args[0] == i):
+            return None
+        if L is None:
+            L = li.args[0]
+        elif li.args[0] is not L:
+            return None
+    return mk("le_bytes_of_u64_limbs", L, n // 8)
+
+
+def norm_range_stores(t):
+    """store_range chain over a zero buffer covering [0, 8n) by le_bytes_of_u64(L[k]) at [8k, 8k+8)  ->  le_bytes_of_u64_limbs(L, n)"""
+    parts = {}
+    x = t
+    while isinstance(x, T) and x.op == "store_range":
+        base, lo, hi, val = x.args
+        parts[(lo, hi)] = val
+        x = base
+    if not (isinstance(x, T) and x.op == "repeat" and isinstance(x.args[1], int)) or not parts:
+        return t
+    n8 = x.args[1]
+    if n8 % 8 != 0 or sorted(parts) != [(8 * k, 8 * k + 8) for k in range(n8 // 8)]:
+        return t
+    L = None
+    for (lo, hi), val in parts.items():
+        if not (val.op == "le_bytes_of_u64" and val.args[0].op == "index" and val.args[0].args[1].op == "lit" and val.args[0].args[1].args[0] == lo // 8):
+            return t
+        if L is None:
+            L = val.args[0].args[0]
+        elif val.args[0].args[0] is not L:
+            return t
+    return mk("le_bytes_of_u64_limbs", L, n8 // 8)
 
 
 def show(t, depth=0, maxdepth=9):
@@ -147,6 +215,8 @@ def ite(c, a, b):
         return a
     if c.op == "not":
         return ite(c.args[0], b, a)
+    if c.op == "ne":
+        return ite(mk("eq", *c.args), b, a)
     if a is TRUE and b is FALSE:
         return c
     if a is FALSE and b is TRUE:
@@ -333,9 +403,15 @@ def variant(name, *payload):
     return mk("variant", name, *payload)
 
 
+_COMPLEMENT = {"None": "Some", "Err": "Ok"}
+
+
 def is_variant(x, name):
     if x.op in ("variant", "variant_struct"):
         return TRUE if x.args[0] == name else FALSE
+    if name in _COMPLEMENT:
+        # Option / Result have two variants: one canonical spelling of the test
+        return not_(is_variant(x, _COMPLEMENT[name]))
     if x.op == "ite":
         return ite(x.args[0], is_variant(x.args[1], name), is_variant(x.args[2], name))
     return mk("is_variant", x, name)
